@@ -89,6 +89,45 @@ impl s2n_quic::provider::random::Generator for Random {
     }
 }
 
+macro_rules! finish {
+    ($b:expr, $cfg:expr) => {{
+        let b = $b;
+        if $cfg.cc == "bbr" {
+            b.with_congestion_controller(Bbr::default())?.start()?
+        } else {
+            b.with_congestion_controller(Cubic::default())?.start()?
+        }
+    }};
+}
+
+/// deterministic, keyed stateless reset tokens (same token for the same connection id)
+#[derive(Debug)]
+pub struct SResetTokens(pub u64);
+
+impl s2n_quic::provider::stateless_reset_token::Generator for SResetTokens {
+    const ENABLED: bool = true;
+
+    fn generate(&mut self, local_connection_id: &[u8]) -> s2n_quic_core::stateless_reset::Token {
+        let mut h = self.0;
+        for b in local_connection_id {
+            h = cfg::mix(h ^ *b as u64);
+        }
+        let mut t = [0u8; 16];
+        t[..8].copy_from_slice(&cfg::mix(h).to_le_bytes());
+        t[8..].copy_from_slice(&cfg::mix(h ^ 0xabcd).to_le_bytes());
+        t.into()
+    }
+}
+
+impl s2n_quic::provider::stateless_reset_token::Provider for SResetTokens {
+    type Generator = Self;
+    type Error = core::convert::Infallible;
+
+    fn start(self) -> std::result::Result<Self::Generator, Self::Error> {
+        Ok(self)
+    }
+}
+
 macro_rules! build {
     ($builder:expr, $handle:expr, $cfg:expr, $ep:expr, $lim:expr, $tls:expr, $salt:expr) => {{
         let mut io = $handle.builder();
@@ -102,10 +141,12 @@ macro_rules! build {
             .with_random(Random(Rng(cfg::mix($cfg.seed ^ $salt))))?
             .with_limits(mk_limits($lim))?
             .with_packet_interceptor(Icpt::new($ep, $cfg))?;
-        if $cfg.cc == "bbr" {
-            b.with_congestion_controller(Bbr::default())?.start()?
+        if $cfg.sreset && $ep == "s" {
+            // stateless resets are off by default in s2n-quic; a keyed generator turns them on (scenario parameter)
+            let b = b.with_stateless_reset_token(SResetTokens(cfg::mix($cfg.seed ^ 0x5e5e)))?;
+            finish!(b, $cfg)
         } else {
-            b.with_congestion_controller(Cubic::default())?.start()?
+            finish!(b, $cfg)
         }
     }};
 }
